@@ -141,7 +141,7 @@ def c13_ble_cases(draw):
 
 C13_LAYERS = [
     Layer("ble-write-table", run_c13_ble, enumerate=enum_c13_ble, exhaustive=True, space="5 PDU statuses ^ n for 5 characteristic sets (n <= 3); timed-write and small-MTU variants", min_nontrivial=100),
-    Layer("ble-write-gen", run_c13_ble, strategy=c13_ble_cases, n={"quick": 500, "thorough": 15000}),
+    Layer("ble-write-gen", run_c13_ble, strategy=c13_ble_cases, n={"quick": 2000, "thorough": 30000}),
 ]
 
 
@@ -242,7 +242,7 @@ def c06_ble_histories(draw):
 
 C06_LAYERS = [
     Layer("ble-dfs", run_c06_ble, enumerate=enum_c06_ble, exhaustive=True, space="all sequences over 12 events to depth 3 (quick) / 4 (thorough) ending in a request", min_nontrivial=100),
-    Layer("ble-generated", run_c06_ble, strategy=c06_ble_histories, n={"quick": 600, "thorough": 20000}),
+    Layer("ble-generated", run_c06_ble, strategy=c06_ble_histories, n={"quick": 2000, "thorough": 30000}),
 ]
 
 
@@ -479,7 +479,7 @@ def c17_ble_cases(draw):
             "rfrag": draw(st.sampled_from([20, 23, 100, 512]))}
 
 
-C17_BLE_LAYERS = [Layer("ble-api", run_c17_ble, strategy=c17_ble_cases, n={"quick": 300, "thorough": 8000})]
+C17_BLE_LAYERS = [Layer("ble-api", run_c17_ble, strategy=c17_ble_cases, n={"quick": 1500, "thorough": 20000})]
 
 
 # ---------------------------------------------------------------- C04: add-/remove-pairing replies on IP (same cells as BLE)
